@@ -92,6 +92,18 @@ Definition hist_step (s : hist_st) (e : aev) : hist_st :=
 Definition hist_run (h : list aev) : hist_st := fold_left hist_step h hist_init.
 Definition live_zs (s : hist_st) : list Z := map snd (h_live s).
 
+(** Widgets of EVERY class of UrwidImage's class tree (UrwidImage itself, its subclasses,
+    their subclasses) draw from this ONE allocator: [_ti_get_z_index] is a staticmethod that
+    reads and writes the counter and the free set through [__class__] (= UrwidImage, :199-205),
+    and [__del__] releases through [__class__] (:112) - never through [type(self)] / [cls],
+    which would give a subclass a counter of its own on the first assignment.  A history in
+    which every construction names the class of the widget: the class is not an input of
+    the allocator. *)
+Inductive aevc := CNewOf (cls : nat) (pick : nat) | CDelOf (w : nat).
+Definition forget_class (e : aevc) : aev :=
+  match e with CNewOf _ pick => ANew pick | CDelOf w => ADel w end.
+Definition hist_run_classes (h : list aevc) : hist_st := hist_run (map forget_class h).
+
 Close Scope Z_scope.
 Open Scope nat_scope.
 
